@@ -93,6 +93,13 @@ impl<T: Write + Read + Seek> E57Writer<T> {
             Error::invalid(format!(
                 "An extension using the namespace {ns} is already registered"
             ))?
+        } else if self.extensions.iter().any(|e| e.url == extension.url) {
+            // Two prefixes for the same URL are the same XML namespace,
+            // records of the second one would be read back with the prefix of the first
+            let url = &extension.url;
+            Error::invalid(format!(
+                "An extension using the URL {url} is already registered"
+            ))?
         } else {
             self.extensions.push(extension);
             Ok(())
